@@ -7,7 +7,9 @@ pub mod c02;
 pub mod c03;
 pub mod c04;
 pub mod c05;
+pub mod c06;
 pub mod c07;
+pub mod c09;
 pub mod c10;
 pub mod c12;
 pub mod c13;
@@ -22,7 +24,9 @@ pub fn run(ctx: &Ctx, sh: &mut Shard) {
         "C03" => c03::run(ctx, sh),
         "C04" => c04::run(ctx, sh),
         "C05" => c05::run(ctx, sh),
+        "C06" => c06::run(ctx, sh),
         "C07" => c07::run(ctx, sh),
+        "C09" => c09::run(ctx, sh),
         "C10" => c10::run(ctx, sh),
         "C12" => c12::run(ctx, sh),
         "C13" => c13::run(ctx, sh),
@@ -42,7 +46,9 @@ pub fn replay(v: &Value, sh: &mut Shard) {
         "C03" => c03::replay(v, sh),
         "C04" => c04::replay(v, sh),
         "C05" => c05::replay(v, sh),
+        "C06" => c06::replay(v, sh),
         "C07" => c07::replay(v, sh),
+        "C09" => c09::replay(v, sh),
         "C10" => c10::replay(v, sh),
         "C12" => c12::replay(v, sh),
         "C13" => c13::replay(v, sh),
